@@ -122,7 +122,7 @@ func GetFileNameList(path string, ignoreList []string) (fields []Field, err erro
 			copy(fnwi.Creator[:], hlFile.Ffo.FlatFileInformationFork.CreatorSignature[:])
 		}
 
-		strippedName := strings.ReplaceAll(file.Name(), ".incomplete", "")
+		strippedName := strings.TrimSuffix(file.Name(), IncompleteFileSuffix)
 		strippedName, err = txtEncoder.String(strippedName)
 		if err != nil {
 			continue
